@@ -1,6 +1,7 @@
 package main
 
 import (
+	"encoding/json"
 	"fmt"
 	"io/ioutil"
 	"net/http"
@@ -93,7 +94,7 @@ func c17Encoded() []string {
 }
 
 func TestVerif_C17(t *testing.T) {
-	res := newVerifResult("login_destination strings: exhaustive over {/ \\\\ . a TAB ? # % : @}^<=L (L=4 quick, 5 thorough) through getLoginDestination+http.Redirect, a structured adversarial list, every raw/percent-encoded pair of dangerous bytes after the leading slash, and seeded random strings through POST /api/v0/login (text/html); non-trivial = the filter accepted the string (redirect target differs from the profile page); distinct by (input, Location)")
+	res := newVerifResult("login_destination strings: exhaustive over {/ \\\\ . a TAB ? # % : @}^<=L (L=4 quick, 5 thorough) through getLoginDestination+http.Redirect, a structured adversarial list, every raw/percent-encoded pair of dangerous bytes after the leading slash, and seeded random strings through POST /api/v0/login (text/html); the federated-login flow; a second-factor success path (bootstrap OTP) with hostile values in the form field, the query string, Referer, Origin and forwarding headers; non-trivial = the filter accepted the string (redirect target differs from the profile page); distinct by (input, Location)")
 	// a fake OAuth2 provider for the federated-login flow
 	provider := httptest.NewServer(http.HandlerFunc(func(w http.ResponseWriter, r *http.Request) {
 		w.Header().Set("Content-Type", "application/json")
@@ -117,6 +118,7 @@ func TestVerif_C17(t *testing.T) {
 		c.Oauth2.Scopes = "openid"
 		c.Base.AllowedAuthBackendsForWebUI = []string{"password"}
 		c.Base.AllowedAuthBackendsForCerts = []string{"U2F"}
+		c.Base.AdminUsers = []string{"admin"}
 		c.Base.PasswordAttemptGlobalBurstLimit = 1000000
 		c.Base.PasswordAttemptGlobalRateLimit = 1000000
 	})
@@ -256,6 +258,79 @@ func TestVerif_C17(t *testing.T) {
 			if loc, ok := oauthCallback(c1, st1); ok {
 				record("/profile/ok", loc, "oauth2:first-attempt-callback", true)
 			}
+		}
+	}
+	// (4) a second-factor success path (bootstrap OTP): the destination may only come from the
+	// filtered login_destination form field; every other request-controlled channel (query string,
+	// Referer, Origin, forwarding headers) must be ignored — for the model they are not inputs, so
+	// the expected Location of those probes is the profile page
+	adminCookie := env.cookie("admin", AuthTypePassword|AuthTypeU2F)
+	if err := env.state.SaveUserProfile("alice", &userProfile{}); err != nil { // the admin endpoint wants an existing profile
+		t.Fatal(err)
+	}
+	issueOtp := func() string {
+		f := url.Values{}
+		f.Set("username", "alice")
+		f.Set("duration", "10m")
+		req := verifNewRequest("POST", generateBoostrapOTPPath, f)
+		req.AddCookie(adminCookie)
+		rr, _ := env.serve(req)
+		var d newBootstrapOTPPPageTemplateData
+		if rr.Code != 200 || json.Unmarshal(rr.Body.Bytes(), &d) != nil || d.BootstrapOTPValue == "" {
+			return ""
+		}
+		return d.BootstrapOTPValue
+	}
+	secondFactor := func(hostile, channel string) {
+		otp := issueOtp()
+		if otp == "" {
+			res.hit(verifHit{Key: "C17:harness:bootstrap-otp", Oracle: "harness", What: "could not issue a bootstrap OTP", Case: channel})
+			return
+		}
+		f := url.Values{}
+		f.Set("OTP", otp)
+		target := bootstrapOtpAuthPath
+		modelInput := ""
+		switch channel {
+		case "form":
+			f.Set("login_destination", hostile)
+			modelInput = hostile
+		case "query":
+			target += "?login_destination=" + url.QueryEscape(hostile)
+			modelInput = hostile // ParseForm merges the query into r.Form: same filter, same sink
+		}
+		req := verifNewRequest("POST", target, f)
+		switch channel {
+		case "referer-same-host":
+			req.Header.Set("Referer", "https://keymaster.example"+hostile)
+		case "referer-same-host-query":
+			req.Header.Set("Referer", "https://keymaster.example/?login_destination="+url.QueryEscape(hostile))
+		case "origin+referer":
+			req.Header.Set("Origin", "https://keymaster.example")
+			req.Header.Set("Referer", "https://keymaster.example"+hostile)
+		case "forwarded":
+			req.Header.Set("X-Forwarded-Host", "evil.com")
+			req.Header.Set("X-Forwarded-Uri", hostile)
+			req.Header.Set("X-Original-Url", hostile)
+			req.Header.Set("X-Rewrite-Url", hostile)
+		}
+		req.Header.Set("Accept", "text/html")
+		req.AddCookie(env.cookie("alice", AuthTypePassword))
+		rr, _ := env.serve(req)
+		if rr.Code != 302 {
+			res.bump("2fa:not-redirected:" + channel)
+			return
+		}
+		record(modelInput, rr.Header().Get("Location"), "bootstrapOtp:"+channel, true)
+		if modelInput == "" && rr.Header().Get("Location") != profilePath {
+			res.hit(verifHit{Key: "C17:unfiltered-channel:bootstrapOtp:" + channel, Oracle: "a second-factor redirect target is taken from a request channel other than the filtered login_destination field",
+				What: fmt.Sprintf("%s carrying %q yields Location %q", channel, hostile, rr.Header().Get("Location")), Case: map[string]interface{}{"channel": channel, "value": []byte(hostile)}, Observed: rr.Header().Get("Location")})
+		}
+	}
+	twoFA := []string{"/profile/", "//evil.com/x", "/\\evil.com", "//evil.com/landing?x=1", "/./\\evil.com", "/%2Fevil.com", "/%2f%2fevil.com", "/\t/evil.com", "https://evil.com/", "/a/..//evil.com", "/@evil.com", "/ok/path?next=//evil.com"}
+	for _, h := range twoFA {
+		for _, ch := range []string{"form", "query", "referer-same-host", "referer-same-host-query", "origin+referer", "forwarded"} {
+			secondFactor(h, ch)
 		}
 	}
 	// Coq case file
